@@ -15,6 +15,7 @@ RULE = ('random well-typed trees over Int/Id/Mem(with and without segment)/Op/Co
         'non-trivial = the law was actually evaluated on a tree with at least two nodes.')
 RULE += ' Round 6: constants with the top bit set are twinned with the same bit pattern held as a signed constant (equal constants must hash equally); slices are twinned with windows whose bounds have the same xor / the same sum.'
 RULE += ' Round 7: 64-bit constants twinned with the constant of the same Python hash; an assignment whose destination identifier is replaced by a slice of a 16-, 32- or 64-bit location must assign exactly those bits.'
+RULE += " Round 9: replacement maps whose values are themselves keys (exchange, chain, rotation over the tree's own leaves) against simultaneous substitution."
 ASSUMPTIONS = ['irsem is the meaning of the IR (self-test run by setup)', 'segment annotations do not take part in the value (flat memory)']
 
 
